@@ -7,12 +7,61 @@ SPEC = {
     'parts': [
         {'pkg': 'commit/merkleroot/rmn', 'pkgname': 'rmn',
          'src': 'harness/commit/merkleroot/rmn/c06_test.go', 'test': 'TestVerif_C06',
-         'sinks': {'C06_sched': 'c06_judge'}, 'n': {'quick': 400, 'thorough': 12000}},
+         'sinks': {'C06_sched': 'c06_judge'}, 'n': {'quick': 1500, 'thorough': 15000}},
     ],
-    'rule': 'TODO',
-    'trusted': [],
-    'assumptions': [],
-    'level_text': 'PARTIAL',
-    'level_note': '',
-    'modelled': '',
+    'rule': 'one case = one scripted run of the real rmn.controller.ComputeReportSignatures (scripted PeerClient that owns the '
+            'Recv channel and records every Send, table-driven ed25519 / RMNCrypto stubs, RMNHome stub). Configurations: 2..6 '
+            'RMN nodes with random ids, 1..3 requested lanes, F_home 0..2 with observer counts at F, F+1, F+2, all; signer '
+            'subsets with F_remote 0..2 at the same boundaries, a signer unknown to RMNHome; classes nof / dupchain / baddest '
+            '/ fewobs / fewsigners. Timer classes per phase: never (1 h, fires only after Reset(0) on an invalid response) / '
+            'at start (1 ns). Send failures: none / some / most. Responses drawn online from what was actually sent: correct '
+            '(own id), 22 content corruptions (nil Observation/LaneDest/LaneSource/ClosedInterval/Root, short and long roots, '
+            'wrong dest/offramp/digest/interval/onramp, unrequested / duplicate / extra / missing lanes, conflicting and empty '
+            'roots, bad signature, wrong or missing payload kind), 6 signature corruptions, duplicates, unknown ids, ids of '
+            'failed sends or of the other phase, node X under the id sent to node Y (F12b), nodes that were not asked or are '
+            'unknown, garbage bytes; "villain" mode: Byzantine nodes vote the honest root with exactly one defect so that a '
+            'missing check tips a threshold. Every item is delivered only when the controller goroutine is parked in select '
+            '(runtime.Stack, one P), so the run is deterministic; race items (a response or a cancellation handed over at the '
+            'next select entry together with a possibly due timer) are compared against the set of outcomes the model allows; '
+            'context cancellation at a random parked point, at a select entry, or before the first select. Observable: result '
+            'kind, returned (lane, root) list, signature order, every Send (kind, addressee, request id, chains), the '
+            'attributed observations of the signature request, and whether every VerifyReportSignatures call saw exactly the '
+            'report handed back. non-trivial = a ReportSignatureRequest was sent or the call succeeded; distinct by full input',
+    'trusted': [
+        'ed25519 verification and RMNCrypto.VerifyReportSignatures are oracles (model: Section variables edv / vrs; harness: '
+        'table-driven stubs keyed by the signer)',
+        'protobuf unmarshalling: a response body is either garbage or a Response with request id and payload; a repeated '
+        'message field never holds nil elements; absent sub-messages are nil',
+        'PeerClient attributes every response to the stream (node) it arrived on',
+        'Go runtime facts used by the harness only: goroutine status strings of runtime.Stack, timers (go 1.23 semantics) '
+        'with one P are run before a goroutine parked in select can be observed as parked',
+        'F values and counts stay far below the Go int range (f+1 does not overflow)',
+    ],
+    'assumptions': [
+        'RMNHome node ids are pairwise distinct, remote signer node indexes are pairwise distinct (theorem hypothesis), signer '
+        'addresses are pairwise distinct and of equal length (sort.Slice by hex string)',
+        'the requests passed in by the plugin have non-nil LaneSource / ClosedInterval',
+        'liveness only: Send calls succeed, request ids do not repeat (crypto/rand 64 bit), at most F_home dishonest '
+        'observers per lane, honest nodes answer requests sent to them correctly',
+    ],
+    'level_text': 'PARTIAL. Proof: 11 Coq theorems over the executable two-phase model, for every configuration, every schedule '
+                  'parameter and every event list (induction over the list): phase A hands on only with F_home+1 DISTINCT '
+                  'configured observers per lane whose signed responses carry the same root for exactly the requested lane and '
+                  'interval; success only with F_remote+1 DISTINCT configured signers valid for exactly the returned report, '
+                  'ascending by address, lanes exactly the supported requested ones; terminal by the CtxDone event; no panic for '
+                  'any event list; liveness (enough honest timely answers => success whatever else arrives); refutation '
+                  'theorems with concrete witnesses for the pre-repair code (F12a nil sub-message / short root panics, F12b '
+                  'one node counted twice). Correspondence: the real controller is driven through generated schedules every '
+                  'run and compared with the model on the full observable. Not covered (hence partial): which of several '
+                  'simultaneously ready select cases Go picks beyond the pairs exercised as race items, and real wall-clock '
+                  'deadlines (the model has the event CtxDone, timers are "due / not due")',
+    'level_note': 'Trusted: Coq kernel, hand-written model, differential harness and its parked-goroutine protocol. Signature '
+                  'verification, protobuf decoding and the peer layer are oracles / inputs. No axioms. The model follows the '
+                  'repaired code (fixes/F12.patch); until that patch is in the repository the check reports the F12 violations.',
+    'modelled': 'ComputeReportSignatures, populateUpdatesPerChain and the F filter, getRmnSignedObservations (initial request '
+                'loop), sendObservationRequests, listenForRmnObservationResponses, parseResponse, '
+                'validateSignedObservationResponse (+ validateRootLengths), gotSufficientObservationResponses, selectRoots, '
+                'transformAndSortObservations (order only), sendReportSignatureRequest, listenForRmnReportSignatures, '
+                'validateReportSigResponse, sortAndParseReportSigs; GetRMNNodesInfo / GetF answers, chain-selectors lookup, '
+                'map orders, shuffles, request ids and Send failures are inputs of the model',
 }
